@@ -534,3 +534,86 @@ package stats
 //@   ensures [def] result == isumI(xs, len(xs))
 //@   loop 1 (x) invariant sum == isumI(xs, _k)
 //@   assigns nothing
+
+// ---------------------------------------------------------------------
+// Student t distribution and t-tests (C04, C05). Model xreal.
+
+//@ func lgamma
+//@   inline
+//@   assigns nothing
+
+//@ func TDist.CDF
+//@   deterministic
+//@   model xreal
+//@   requires isfinite(t.V) && t.V > 0
+//@   ensures [zero] x == 0 ==> result == 0.5
+//@   ensures [pos]  x > 0 ==> result == 1 - 0.5 * mathx.BetaInc(t.V / (t.V + x*x), t.V / 2, 0.5)
+//@   ensures [neg]  x < 0 ==> result == 1 - (1 - 0.5 * mathx.BetaInc(t.V / (t.V + (-x)*(-x)), t.V / 2, 0.5))
+//@   ensures [nan]  isnan(x) ==> isnan(result)
+//@   assigns nothing
+
+//@ func TDist.Bounds
+//@   model xreal
+//@   results lo, hi
+//@   ensures [def] lo == -4 && hi == 4
+//@   assigns nothing
+
+//@ func newTTestResult
+//@   model xreal
+//@   requires isfinite(dof) && dof > 0
+//@   ensures [fields]  result != nil && fresh(result) && result.N1 == n1 && result.N2 == n2 && result.T == t && result.DoF == dof && result.AltHypothesis == alt
+//@   ensures [less]    alt == LocationLess ==> result.P == TDist{dof}.CDF(t)
+//@   ensures [greater] alt == LocationGreater ==> result.P == 1 - TDist{dof}.CDF(t)
+//@   ensures [differs] alt == LocationDiffers ==> result.P == 2 * (1 - TDist{dof}.CDF(abs(t)))
+//@   assigns nothing
+
+//@ assume pure TTestSample.Weight
+//@ assume pure TTestSample.Mean
+//@ assume pure TTestSample.Variance
+
+//@ func TwoSampleTTest
+//@   model xreal
+//@   results res, err
+//@   let n1 = x1.Weight()
+//@   let n2 = x2.Weight()
+//@   let v1 = x1.Variance()
+//@   let v2 = x2.Variance()
+//@   requires isfinite(n1) && isfinite(n2) && n1 + n2 > 2
+//@   ensures [err-size] (feq(n1, 0) || feq(n2, 0)) <==> err == ErrSampleSize
+//@   ensures [err-var]  !(feq(n1, 0) || feq(n2, 0)) && feq(v1, 0) && feq(v2, 0) ==> err == ErrZeroVariance
+//@   ensures [ok]       !(feq(n1, 0) || feq(n2, 0)) && !(feq(v1, 0) && feq(v2, 0)) ==> err == nil
+//@   ensures [stat]     err == nil ==> res != nil && res.DoF == n1 + n2 - 2 && res.T == (x1.Mean() - x2.Mean()) / sqrt((((n1 - 1) * v1 + (n2 - 1) * v2) / (n1 + n2 - 2)) * (1 / n1 + 1 / n2))
+//@   ensures [p-less]   err == nil && alt == LocationLess ==> res.P == TDist{res.DoF}.CDF(res.T)
+//@   ensures [p-greater] err == nil && alt == LocationGreater ==> res.P == 1 - TDist{res.DoF}.CDF(res.T)
+//@   ensures [p-differs] err == nil && alt == LocationDiffers ==> res.P == 2 * (1 - TDist{res.DoF}.CDF(abs(res.T)))
+//@   assigns nothing
+
+//@ func TwoSampleWelchTTest
+//@   model xreal
+//@   results res, err
+//@   let n1 = x1.Weight()
+//@   let n2 = x2.Weight()
+//@   let v1 = x1.Variance()
+//@   let v2 = x2.Variance()
+//@   let dof = pow(v1 / n1 + v2 / n2, 2) / (pow(v1 / n1, 2) / (n1 - 1) + pow(v2 / n2, 2) / (n2 - 1))
+//@   requires isfinite(n1) && isfinite(n2) && (n1 > 1 && n2 > 1 ==> isfinite(dof) && dof > 0)
+//@   ensures [err-size] (n1 <= 1 || n2 <= 1) <==> err == ErrSampleSize
+//@   ensures [err-var]  !(n1 <= 1 || n2 <= 1) && feq(v1, 0) && feq(v2, 0) ==> err == ErrZeroVariance
+//@   ensures [stat]     err == nil ==> res != nil && res.DoF == dof && res.T == (x1.Mean() - x2.Mean()) / sqrt(v1 / n1 + v2 / n2)
+//@   ensures [p-less]   err == nil && alt == LocationLess ==> res.P == TDist{res.DoF}.CDF(res.T)
+//@   ensures [p-greater] err == nil && alt == LocationGreater ==> res.P == 1 - TDist{res.DoF}.CDF(res.T)
+//@   ensures [p-differs] err == nil && alt == LocationDiffers ==> res.P == 2 * (1 - TDist{res.DoF}.CDF(abs(res.T)))
+//@   assigns nothing
+
+//@ func OneSampleTTest
+//@   model xreal
+//@   results res, err
+//@   let n = x.Weight()
+//@   let v = x.Variance()
+//@   requires isfinite(n) && n > 1
+//@   ensures [err-var]  feq(v, 0) ==> err == ErrZeroVariance
+//@   ensures [stat]     !feq(v, 0) ==> err == nil && res != nil && res.DoF == n - 1 && res.T == (x.Mean() - μ0) * sqrt(n) / sqrt(v)
+//@   ensures [p-less]   err == nil && alt == LocationLess ==> res.P == TDist{res.DoF}.CDF(res.T)
+//@   ensures [p-greater] err == nil && alt == LocationGreater ==> res.P == 1 - TDist{res.DoF}.CDF(res.T)
+//@   ensures [p-differs] err == nil && alt == LocationDiffers ==> res.P == 2 * (1 - TDist{res.DoF}.CDF(abs(res.T)))
+//@   assigns nothing
